@@ -88,9 +88,14 @@ def run(chk):
         for fname, ref_f, key in (("beta_qcd_as2aem1", lit.beta_qcd_as2aem1, (2, 1)),
                                   ("beta_qed_aem2as1", lit.beta_qed_aem2as1, (1, 2))):
             f = src.func(f"eko.beta.{fname}")
-            got = dag.as_const(pe.call(f.qname, [n]))
             ref = ref_f(n)
             n_qed += 1
+            try:
+                got = dag.as_const(pe.call(f.qname, [n]))
+            except (PERaise, ZeroDivisionError) as e:
+                chk.fail("coefficient-vs-literature", f.qname, f"{fname}(nf={n}) cannot be evaluated ({type(e).__name__}: {e}); the literature value is {ref}",
+                         where=f.where, instance=f"nf={n}")
+                continue
             chk.decide(got == ref, "coefficient-vs-literature", f.qname,
                        f"{fname}(nf={n}) = {got} but the literature value is {ref}", where=f.where,
                        instance=f"nf={n}", how="exact")
